@@ -25,6 +25,10 @@ CLAIMED = {
    technique="TLA+ spec of build_from / contexts / pending input / flow stack (Xeh.tla), twin-run self-composition checked by TLC over all scenarios; twin replay on the real crate; seeded twin traces validated by TLC (Trace_TwinObs); REPL scripts through the real binary",
    text="TLC judges every scenario (prior history x open structures x failing token x trailing text x probes x submission style, plus run-time failing sources) as a two-run statement on the design: probes after a rejected source behave as if it had never been submitted and mode/nesting/flow/input are restored. Every scenario is replayed as twin runs on the real crate and must also match the design's predicted probe outcomes; seeded long histories with corrupted sources are recorded as twin observations and validated by the twin-run trace specification; a regression configuration shows that the model checker still rejects the pinned, non-unwinding design.",
    note="Behaviour is compared, not buffer names or heap addresses; a source counts as rejected at build time when compiling it on a clone fails."),
+ "C11": dict(cat="model_checking", design="5/C11",
+   technique="TLA+ spec of evaluation contexts and meta blocks (Xeh.tla Open/Close/Purge/EmitResults), TLC over expression x position x prior state x style; block-vs-inlined twin replay on the real crate; seeded twins validated by TLC (Trace_TwinObs)",
+   text="TLC checks on the design, for every constant expression, position, prior state and submission style, that the program with the meta block equals the program with the block's values inlined (last result first), that only constants survive the block, that a failing block rejects the source without touching anything, and that compile leaves stack and existing variables unchanged. Every scenario is replayed on the real crate (twin + prediction + dictionary purge + compile purity); seeded expressions whose value is computed by the implementation's own eval are compared block-vs-inlined at seven positions and validated by the twin-run trace specification.",
+   note="Inside another meta block the stack is shared and values are not reversed (pinned by the suite): only single-valued stack-insensitive blocks are judged there; expressions needing a variable are refused in meta mode by design and skipped."),
 }
 
 PENDING_REASON = "check not built yet in this build session (planned, DESIGN.md section 12); no claim is made for it"
